@@ -84,3 +84,79 @@ Proof.
   specialize (Hc 1%N ltac:(cbn; tauto) eq_refl). cbn in Hc.
   destruct (absd_spec 3 (xof b (0, 1)%N)) as (A1 & A2 & _). destruct (absd_spec 5 (xof b (1, 2)%N)) as (B1 & B2 & _). lra.
 Qed.
+
+(* ---- C09_minpathcovercycles_returns_minimum_within_caps: ALL hypotheses (solver specification included) on the self-loop graph:
+   the k-cover model is feasible exactly for k >= 1 *)
+From FP Require Import WalkCoverIff WalkWidthCaps.
+Local Close Scope Q_scope.
+Lemma loop_cover_adm j : 1 <= j -> cover_admissible (kset loop_kpcc j) (fun _ => [1; 0; 0; 2]%N).
+Proof.
+  intros Hj. split; [|split; [|split; [|split]]].
+  - intros i _. split; [reflexivity|]. split; [reflexivity|]. intros e He. cbn in He. cbn. tauto.
+  - intros e He _. exists 0%N. split; [apply in_layers; exists 0; split; [cbn; lia|reflexivity]|].
+    cbn in He. destruct He as [<-|[<-|[<-|[]]]]; vm_compute; discriminate.
+  - intros i e _ He. cbn in He. destruct He as [<-|[<-|[<-|[]]]]; vm_compute; discriminate.
+  - split; [intros e i H|intros e i m H]; cbn in H; destruct H.
+  - intros n c H. cbn in H. destruct n; discriminate.
+Qed.
+Lemma loop_cover_0 : ~ exists P, cover_admissible (kset loop_kpcc 0) P.
+Proof.
+  intros (P & _ & Hc & _). destruct (Hc (0, 0)%N) as (i & Hi & _); [cbn; tauto|vm_compute; reflexivity|]. cbn in Hi. exact Hi.
+Qed.
+Definition cover_out (j : nat) : outcome := if j =? 0 then Infeasible else Optimal.
+Lemma loop_cover_search_hypotheses :
+  (forall j, pc_k (kset loop_kpcc j) = j /\ wf_stg (pc_graph (kset loop_kpcc j)) /\ o_allow_empty (pc_opts (kset loop_kpcc j)) = false /\
+             winputs_ok (kpcc_walk (kset loop_kpcc j))) /\
+  (forall j, cover_out j = Optimal <-> exists a, sat a (encode_kpcc (kset loop_kpcc j))) /\
+  (forall j, cover_out j = Infeasible <-> ~ exists a, sat a (encode_kpcc (kset loop_kpcc j))) /\
+  (exists P, cover_admissible (kset loop_kpcc 1) P) /\
+  (forall j, j < 1 -> ~ exists P, cover_admissible (kset loop_kpcc j) P) /\ 0 <= 1 <= 3 /\
+  mfdc_solve cover_out (fun _ => false) None 0 3 = Solved 1.
+Proof.
+  assert (Hinst : forall j, pc_k (kset loop_kpcc j) = j /\ wf_stg (pc_graph (kset loop_kpcc j)) /\ o_allow_empty (pc_opts (kset loop_kpcc j)) = false /\
+             winputs_ok (kpcc_walk (kset loop_kpcc j))).
+  { intros j. split; [reflexivity|]. split; [exact loopG_wf|]. split; [reflexivity|].
+    split; [intros c e Hc; cbn in Hc; destruct Hc|intros w e Hw; cbn in Hw; destruct Hw]. }
+  assert (Iff : forall j, (exists a, sat a (encode_kpcc (kset loop_kpcc j))) <-> 1 <= j).
+  { intros j. destruct (Hinst j) as (_ & WF & Hae & Hin). rewrite (kpcc_feasible_iff_within_caps _ WF Hae Hin). split.
+    - intros HP. destruct j; [exfalso; exact (loop_cover_0 HP)|lia].
+    - intros Hj. eexists. exact (loop_cover_adm j Hj). }
+  split; [exact Hinst|]. split; [|split; [|split; [|split; [|split; [lia|reflexivity]]]]].
+  - intros j. rewrite Iff. unfold cover_out. destruct j; cbn; split; intros H; try discriminate; try reflexivity; lia.
+  - intros j. rewrite Iff. unfold cover_out. destruct j; cbn; split; intros H; try discriminate; try reflexivity; lia.
+  - eexists. exact (loop_cover_adm 1 (le_n _)).
+  - intros j Hj. assert (j = 0) by lia. subst. exact loop_cover_0.
+Qed.
+
+(* ---- C06_excess_flow_safe / C06_excess_pos_dec_sound: all hypotheses about the decomposition D on the flow 5 splitting 3 / 2 *)
+From FP Require Safety SafetyProofs3.
+Definition xfl : list ((N * N) * Z) := [((0,1)%N,5%Z);((1,2)%N,3%Z);((1,3)%N,2%Z);((2,4)%N,3%Z);((3,4)%N,2%Z);((4,5)%N,5%Z)].
+Definition xD : list (list N * Z) := [([0;1;2;4;5]%N, 3%Z); ([0;1;3;4;5]%N, 2%Z)].
+Lemma excess_hypotheses :
+  Safety.excess_pos_dec xfl [0;1;2;4;5]%N = true /\
+  (forall pw, In pw xD -> (0 <= snd pw)%Z) /\
+  (forall pw, In pw xD -> incl (Safety.pairs (fst pw)) (map fst xfl)) /\
+  (forall pw x, In pw xD -> ~ In (last (fst pw) 0%N, x) (map fst xfl)) /\
+  (forall e, In e (map fst xfl) -> SafetyProofs3.Wt xD (SafetyProofs3.hasb e) = Safety.flow_of xfl e) /\
+  (0 < Safety.excess (map fst xfl) (Safety.flow_of xfl) [0;1;2;4;5]%N)%Z.
+Proof.
+  split; [vm_compute; reflexivity|]. split; [intros pw [<-|[<-|[]]]; cbn; lia|].
+  split; [intros pw [<-|[<-|[]]] e He; cbn in He |- *; tauto|].
+  split; [intros pw x [<-|[<-|[]]] H; cbn in H; repeat (destruct H as [H|H]; [discriminate H|]); exact H|].
+  split; [intros e He; cbn in He; repeat (destruct He as [<-|He]; [vm_compute; reflexivity|]); destruct He|vm_compute; reflexivity].
+Qed.
+
+(* ---- C09_search_returns_least_feasible_k (Search.search_min): all four hypotheses on a concrete status list *)
+From FP Require Search.
+Lemma mpc_search_hypotheses :
+  let feasible := fun k => (2 <=? k)%nat in
+  let sts := map (fun k => Search.mkraw (if feasible k then Search.Optimal else Search.Infeasible) false) (seq 1 4) in
+  (forall i, (i < 5 - 1)%nat -> exists x, nth_error sts i = Some x /\
+             Search.status_of x = if feasible (1 + i)%nat then Search.Optimal else Search.Infeasible) /\
+  feasible 2%nat = true /\ (forall k, (k < 2)%nat -> feasible k = false) /\ (1 <= 2 < 5)%nat /\
+  Search.so_res (Search.mpc_solve true 1 5 sts) = Search.Solved 2.
+Proof.
+  cbn zeta. split; [|split; [reflexivity|split; [|split; [lia|vm_compute; reflexivity]]]].
+  - intros i Hi. do 4 (destruct i as [|i]; [eexists; split; reflexivity|]). lia.
+  - intros k Hk. destruct k as [|[|k]]; [reflexivity|reflexivity|lia].
+Qed.
